@@ -52,6 +52,8 @@ def main() -> int:
         result = {'inconclusive': [str(exc)], 'evaluations': 0}
     except Exception:
         result = {'inconclusive': ['worker exception: ' + traceback.format_exc()[-1500:]], 'evaluations': 0}
+    if sys.flags.optimize and isinstance(result.get('counters'), dict):
+        result['counters']['shards_run_under_python_O'] = 1
     jdump(result, Path(out_path))
     return 0
 
